@@ -142,6 +142,11 @@ inductive HandlerErr where
   | other (desc : Bytes)                -- any other error: `err.Error()`
   deriving DecidableEq, Repr, Inhabited
 
+/-- `err == nil` -/
+def HandlerErr.isNone : HandlerErr → Bool
+  | .none => true
+  | _ => false
+
 /-- two's complement of a (negative) `int32` constant -/
 def i32 (c : Int) : UInt32 := UInt32.ofNat (c % 4294967296).toNat
 
@@ -182,18 +187,23 @@ inductive Prepared where
 /-- `ResponseExtra.Flags &= requestExtraFieldsmask` -/
 def maskedExtra (h : RespIn) : ResExtra := { h.extra with flags := h.extra.flags &&& h.reqFlags }
 
+/-- the body part of the response: the handler's bytes, or the boxed `RpcReqResultError` replacing them -/
+def responseBody (h : RespIn) (err : HandlerErr) : Bytes :=
+  match errorOnWire h.reqTag err with
+  | none => h.response
+  | some (code, desc) => u32W tRpcReqResultError ++ (u64W h.queryId ++ (u32W code ++ strW desc))
+
+/-- `resp = basictl.NatWrite(resp, tl.ReqResultHeader{}.TLTag()); resp = hctx.ResponseExtra.WriteTL1(resp)` if `Flags != 0` -/
+def extrasOnWire (ex : ResExtra) : Bytes := if ex.flags != 0 then u32W tReqResultHeader ++ ex.write else []
+
 /-- `prepareResponseBody(err)` -/
 def prepareResponseBody (h : RespIn) (err : HandlerErr) : Prepared :=
-  let body :=
-    match errorOnWire h.reqTag err with
-    | none => h.response
-    | some (code, desc) => u32W tRpcReqResultError ++ (u64W h.queryId ++ (u32W code ++ strW desc))
+  let body := responseBody h err
   if h.noResult then .noResult
   else
     let ex := maskedExtra h
-    let resp := body ++ u64W h.queryId
-      ++ (if ex.flags != 0 then u32W tReqResultHeader ++ ex.write else [])
-      ++ (if err == .none && h.tl2 then u32W tTL2Marker else [])
+    let resp := body ++ u64W h.queryId ++ extrasOnWire ex
+      ++ (if err.isNone && h.tl2 then u32W tTL2Marker else [])
     if validBodyLen resp.length then .ok resp body.length ex.flags else .tooLarge
 
 /-- what the client call gets besides the body -/
@@ -258,5 +268,61 @@ def parseResponse (tl2 : Bool) (wire : Bytes) : Except RErr (UInt64 × Bytes × 
     match parseResponseExtra tl2 {} r with
     | .error e => .error e
     | .ok (b, ex, o) => .ok (q, b, ex, o)
+
+/-! ### one whole call (client → server → handler → client) -/
+
+/-- what a handler leaves in `hctx.Response`, `hctx.ResponseExtra`, and the `err` it returns -/
+structure Handler where
+  response : Bytes := []
+  extra : ResExtra := {}
+  err : HandlerErr := .none
+  deriving DecidableEq, Repr, Inhabited
+
+/-- `SendResponse` → `PrepareResponse` on the context `ParseInvokeReq` filled -/
+def respIn (hc : Hctx) (hd : Handler) : RespIn :=
+  { queryId := hc.queryId, response := hd.response, extra := hd.extra, reqFlags := hc.fieldsMask,
+    tl2 := hc.tl2, noResult := hc.noResult, reqTag := hc.reqTag }
+
+/-- `fillRequestTimeout` (client `Do`) with no client default timeout and no context deadline: rejects a
+custom timeout stored without its bit or negative, and clears the bit of an explicit 0 ("infinite"). -/
+def clientTimeout (e : ReqExtra) : Option ReqExtra :=
+  if !hasBit e.flags 23 && e.customTimeoutMs != 0 then none
+  else if e.customTimeoutMs.toNat ≥ 2147483648 then none
+  else if e.customTimeoutMs == 0 then some { e with flags := e.flags &&& ~~~((1 : UInt32) <<< 23), customTimeoutMs := 0 }
+  else some e
+
+inductive CallResult where
+  | refused                      -- the client does not send it (`prepareCall`/`fillRequestTimeout`/`preparePacket` error)
+  | serverRejects (e : RErr)     -- `ParseInvokeReq` error
+  | noAnswer                     -- `noResult` / response too large
+  | clientRejects (hc : Hctx) (e : RErr)
+  | done (hc : Hctx) (body : Bytes) (ex : ResExtra) (o : Outcome)   -- what the handler saw, what the caller gets
+  deriving DecidableEq, Repr, Inhabited
+
+/-- the wire part of one call: `preparePacket`, `ParseInvokeReq`, the handler, `prepareResponseBody`,
+`handlePacket`/`parseResponseExtra` -/
+def exchange (req : Request) (handler : Hctx → Handler) : CallResult :=
+  match preparePacket req with
+  | none => .refused
+  | some p =>
+    match parseInvokeReq (wireOf p) with
+    | .error e => .serverRejects e
+    | .ok hc =>
+      let hd := handler hc
+      match prepareResponseBody (respIn hc hd) hd.err with
+      | .noResult => .noAnswer
+      | .tooLarge => .noAnswer
+      | .ok resp es _ =>
+        match parseResponse req.tl2 (wireOf (resp, es)) with
+        | .error e => .clientRejects hc e
+        | .ok (_, body, ex, o) => .done hc body ex o
+
+/-- `Client.Do`: the checks in front of `preparePacket`, then the exchange -/
+def call (req : Request) (handler : Hctx → Handler) : CallResult :=
+  if hasBit req.extra.flags 7 then .refused   -- "sending no_result requests is not supported"
+  else
+    match clientTimeout req.extra with
+    | none => .refused
+    | some e => exchange { req with extra := e } handler
 
 end TLVerif.Rpcextra
